@@ -147,6 +147,12 @@ def _evaluate_require(ast, file_path, package_lua, lua_path=None):
     for (require_path, use_game_loop, require_token) in walker.walk():
         require_path_str = require_path.decode(encoding='utf-8')
 
+        # (With an empty name, a load path entry such as ?/init.lua becomes
+        # an absolute path.)
+        if not require_path:
+            raise LuaBuildError(
+                'require() filename cannot be empty', require_token)
+
         # Disallow chars that select files outside of the load path.
         if (b'./' in require_path or require_path.startswith(b'/') or
                 b'..' in require_path.split(b'/')):
